@@ -10,7 +10,7 @@ import (
 
 func c09Scenarios(tier string) []*Scenario {
 	var out []*Scenario
-	kinds := []string{"counter", "gauge", "timer", "histogram", "tagged", "subscope", "mixed", "tagged+victim"}
+	kinds := []string{"counter", "gauge", "timer", "histogram", "tagged", "subscope", "mixed", "tagged+victim", "tagged+stale"}
 	type variant struct {
 		kind    string
 		cached  bool
@@ -43,6 +43,10 @@ func c09Scenarios(tier string) []*Scenario {
 				s = root.SubScope("p")
 			}
 			y := s.Counter("y") // already registered metric used by the mixed variant
+			if v.kind == "tagged+stale" {
+				// the registry still holds a closed (stale) scope of the very identity the threads ask for
+				closeScope(s.Tagged(map[string]string{"t": "1"}))
+			}
 			if v.kind == "tagged+victim" {
 				// a closed subscope in the same registry bucket, removed by the concurrent pass
 				closeScope(root.Tagged(map[string]string{"victim": "1"}))
@@ -75,7 +79,7 @@ func c09Scenarios(tier string) []*Scenario {
 						m := s.Histogram("x", b)
 						m.RecordValue(2.5)
 						objs[i] = m
-					case "tagged", "tagged+victim":
+					case "tagged", "tagged+victim", "tagged+stale":
 						c := s.Tagged(map[string]string{"t": "1"})
 						c.Counter("x").Inc(val)
 						objs[i] = c
@@ -131,7 +135,7 @@ func c09Scenarios(tier string) []*Scenario {
 				if cl, d := counterOracle(log, map[string]int64{pre + "x{}": total}, -1, true); cl != "" {
 					return cl, d, "viol"
 				}
-			case "tagged", "tagged+victim":
+			case "tagged", "tagged+victim", "tagged+stale":
 				if cl, d := counterOracle(log, map[string]int64{pre + `x{"t":"1"}`: total}, -1, true); cl != "" {
 					return cl, d, "viol"
 				}
